@@ -385,7 +385,7 @@ func c06Labels(c *c06Case, want bool) (bool, []string) {
 func TestC06_PureValidators(t *testing.T) {
 	rec := recorder("C06")
 	rec.AddRule("keyper sets n<=4 (fixed ECDSA keys + one outsider), all thresholds; signer lists of length 0..n+1 over {in range, =n, huge, repeated, descending}; signature lists of length 0..n+1 with entries {by the listed signer, by another member, by the outsider, over a tuple differing in exactly one field, 65 random bytes, short, empty}; the presented message optionally differs from the signed tuple in exactly one field (instance, eon, slot, tx pointer, identity byte, identity order, identity count). Oracle: reference predicate of the statement, with signatures made by the repository's own ComputeSignature so that validity for the presented tuple is known by construction. Targets: gnosis/shutterservice ValidateDecryptionKeysSignatures and the Gnosis access node's full validator. non-trivial = the two lists differ in length, or exactly one field differs; distinct by case descriptor")
-	runRapid(t, N(800, 50000), func(rt *rapid.T) {
+	runRapid(t, N(800, 400000), func(rt *rapid.T) {
 		c := genC06Case(rt)
 		want := c.expected()
 		msg := c.message(func([]byte) []byte { return []byte{1} })
@@ -419,7 +419,7 @@ func TestC06_PureValidators(t *testing.T) {
 func TestC06_AccessNodeChain(t *testing.T) {
 	rec := recorder("C06")
 	ctx := context.Background()
-	runRapid(t, N(150, 5000), func(rt *rapid.T) {
+	runRapid(t, N(150, 30000), func(rt *rapid.T) {
 		c := genC06Case(rt)
 		if !c.Gnosis {
 			rt.Skip("access node is Gnosis only")
@@ -475,7 +475,7 @@ func TestC06_AccessNodeChain(t *testing.T) {
 func TestC06_KeyperChain(t *testing.T) {
 	rec := recorder("C06")
 	ctx := context.Background()
-	runRapid(t, N(200, 5000), func(rt *rapid.T) {
+	runRapid(t, N(200, 20000), func(rt *rapid.T) {
 		c := genC06Case(rt)
 		// the keyper chain also runs the core keys validator: give it an eon with a successful DKG and genuine keys
 		key := fmt.Sprintf("%d/%d", c.N, c.T)
@@ -581,7 +581,7 @@ func TestC06_Sequences(t *testing.T) {
 	rec := recorder("C06")
 	rec.AddRule("sequences: 2..5 messages presented in order to the same validator objects in one process (pure validators, access-node handler, and for a quarter of the sequences a keyper node's combined validator over pgfake); the first message is genuine (2/3) or a case of the single-message generator; follow-ups keep signer list and signature bytes and change one field of the presented tuple, return to the signed tuple, or repeat; oracle per step: the same reference predicate, independent of the steps before; non-trivial (sequences) = an accepted message is followed by one that differs in one field, or the reverse")
 	ctx := context.Background()
-	runRapid(t, N(500, 20000), func(rt *rapid.T) {
+	runRapid(t, N(500, 100000), func(rt *rapid.T) {
 		var c0 c06Case
 		if rapid.IntRange(0, 2).Draw(rt, "firstGenuine") > 0 {
 			c0 = genC06Genuine(rt)
